@@ -195,7 +195,7 @@ El(e, cx) ==
                ELSE LET t == IF e.op = "len" THEN "int" ELSE AggTy(e.op, as[1].ty) IN
                     IF t = "ERR" \/ (ff # <<>> /\ ff[1].ty \notin {"bool", "null"}) THEN ErrE("DataTypeError")
                     ELSE IF t = "AMBIG" THEN ErrE("AMBIG")
-                    ELSE IF HasNestedAggWin(as \o ff) THEN ErrE("FunctionTypeError")
+                    ELSE IF HasNestedAggWin(as \o ff \o pp) THEN ErrE("FunctionTypeError")
                     ELSE [k |-> "agg", op |-> e.op, a |-> as, f |-> ff, part |-> pp, ty |-> t,
                           \* inside mutate/filter/arrange an aggregate is a window function over the grouping
                           fk |-> IF cx.aggwin \/ e.pk = "ids" THEN "w" ELSE "a",
@@ -213,7 +213,7 @@ El(e, cx) ==
                                [] e.op = "cum_sum" -> IF as[1].ty \in {"int", "float"} THEN as[1].ty ELSE "ERR"
                                [] OTHER -> "ERR"
                     IN IF t = "ERR" THEN ErrE("DataTypeError")
-                       ELSE IF HasNestedAggWin(as \o oe) THEN ErrE("FunctionTypeError")
+                       ELSE IF HasNestedAggWin(as \o oe \o pp) THEN ErrE("FunctionTypeError")
                        ELSE [k |-> "win", op |-> e.op, a |-> as, part |-> pp, ord |-> os, n |-> e.n, fill |-> fl,
                              ty |-> t, fk |-> "w", pk |-> e.pk]
       [] OTHER -> ErrE("TypeError")
